@@ -39,8 +39,11 @@ type chunkedBodyWriter struct {
 	sync.Once
 	finalizeErr error
 	wroteHeader bool
-	r           *protocol.Response
-	w           network.Writer
+	// the response may not carry a body (HEAD, 1xx, 204, 304), as found when the
+	// header block was written: no chunk and no last-chunk follow it
+	skipBody bool
+	r        *protocol.Response
+	w        network.Writer
 }
 
 // Write will encode chunked p before writing
@@ -55,10 +58,15 @@ func (c *chunkedBodyWriter) Write(p []byte) (n int, err error) {
 			return
 		}
 		c.wroteHeader = true
+		c.skipBody = c.r.MustSkipBody()
 	}
 	if len(p) == 0 {
 		// an empty chunk is the end-of-body marker: an empty write writes nothing
 		return 0, nil
+	}
+	if c.skipBody {
+		// dropped, as every other kind of body is for such a response
+		return len(p), nil
 	}
 	if err = ext.WriteChunk(c.w, p, false); err != nil {
 		return
@@ -89,6 +97,10 @@ func (c *chunkedBodyWriter) Finalize() error {
 				return
 			}
 			c.wroteHeader = true
+			c.skipBody = c.r.MustSkipBody()
+		}
+		if c.skipBody {
+			return
 		}
 		c.finalizeErr = ext.WriteChunk(c.w, nil, true)
 		if c.finalizeErr != nil {
@@ -104,6 +116,7 @@ func (c *chunkedBodyWriter) release() {
 	c.w = nil
 	c.finalizeErr = nil
 	c.wroteHeader = false
+	c.skipBody = false
 	chunkReaderPool.Put(c)
 }
 
